@@ -84,31 +84,24 @@ Proof. exact src_glencoe_parse_ctc. Qed.
 Print Assumptions C08_source_reader_constraint.
 
 (* ---- the whole READER about the translated source (GlencoeReader.transform with the loaded document as input,
-   _parse_tree, _parse_constraints; Gen/Src_glencoer.v): what the model reads, the code reads.  On documents the
-   model rejects the code fails too provided every "optional" entry is a JSON boolean — the model is stricter than
-   the code there (the code takes the truth value of whatever the entry is: C08_source_reader_error_needs_boolean;
-   the writer only ever writes booleans) ---- *)
+   _parse_tree, _parse_constraints; Gen/Src_glencoer.v): what the model reads, the code reads; a document the
+   model rejects makes the code fail too, and where the model names the library error the code raises it.  No
+   hypothesis on the document: the model reads the "optional" entry of a feature with Python's truth value of
+   whatever the entry is (jtruthy), as the code does (`if optional:` / `0 if optional else 1`) ---- *)
 Theorem C08_source_reader : forall w doc pm, glencoe_read doc = Ok pm ->
   exists n0, forall fuel, (n0 <= fuel)%nat -> py_GlencoeReader_transform fuel w doc = Ok (erase_fm pm).
 Proof. exact src_glencoe_read. Qed.
 Print Assumptions C08_source_reader.
 
-Theorem C08_source_reader_error : forall w doc e, gl_doc_optional_bool doc -> glencoe_read doc = Err e ->
+Theorem C08_source_reader_error : forall w doc e, glencoe_read doc = Err e ->
   exists n0, forall fuel, (n0 <= fuel)%nat -> exists e', py_GlencoeReader_transform fuel w doc = Err e'.
 Proof. exact src_glencoe_read_error. Qed.
 Print Assumptions C08_source_reader_error.
 
-Theorem C08_source_reader_library_error : forall w doc, gl_doc_optional_bool doc ->
-  glencoe_read doc = Err FlamaException ->
+Theorem C08_source_reader_library_error : forall w doc, glencoe_read doc = Err FlamaException ->
   exists n0, forall fuel, (n0 <= fuel)%nat -> py_GlencoeReader_transform fuel w doc = Err FlamaException.
 Proof. exact src_glencoe_read_library_error. Qed.
 Print Assumptions C08_source_reader_library_error.
-
-Theorem C08_source_reader_error_needs_boolean :
-  ~ (forall w doc e, glencoe_read doc = Err e ->
-       exists n0, forall fuel, (n0 <= fuel)%nat -> exists e', py_GlencoeReader_transform fuel w doc = Err e').
-Proof. exact src_glencoe_read_error_false. Qed.
-Print Assumptions C08_source_reader_error_needs_boolean.
 
 (* the whole cycle on the translated source: the translated writer, then the translated reader, give the normal
    form of the model back (and C08_norm_* say the normal form only re-orders) *)
